@@ -106,6 +106,7 @@ type world struct {
 	ts      *httptest.Server
 	tsOnce  sync.Once
 	slots   sync.Map // call id -> *slot
+	clients sync.Map // client configuration -> *restli.Client
 	nextID  atomic.Int64
 	filters *filterLog
 }
@@ -251,6 +252,14 @@ func (w *world) baseURL(host string) *url.URL {
 	return u
 }
 
+func (w *world) baseURLFor(host string, cfg clientConfig) *url.URL {
+	u := w.baseURL(host)
+	if cfg.CtxRoot != "" {
+		u.Path = strings.TrimSuffix(u.Path, "/") + "/" + cfg.CtxRoot
+	}
+	return u
+}
+
 // inProcess is an http.RoundTripper that serialises the request to wire bytes, parses them back with
 // net/http's server-side parser and serves them with the handler: everything but the socket.
 type inProcess struct {
@@ -282,6 +291,12 @@ func (t inProcess) RoundTrip(req *http.Request) (*http.Response, error) {
 	c.Status, c.RespHdr, c.RespBody = res.StatusCode, res.Header.Clone(), string(rb)
 	if t.cap != nil {
 		t.cap(c)
+	}
+	if v, ok := t.w.slots.Load(sreq.Header.Get(callHeader)); ok {
+		sl := v.(*slot)
+		sl.mu.Lock()
+		sl.wire = append(sl.wire, c)
+		sl.mu.Unlock()
 	}
 	return res, nil
 }
@@ -323,26 +338,32 @@ type clientConfig struct {
 	Threshold int    `json:"tunnelling_threshold"`
 	Strict    bool   `json:"strict"`
 	Transport string `json:"transport"` // inprocess | http
+	// CtxRoot: the resolver's context path ends with this root resource name (the client must then emit the root segment
+	// exactly once); "" = plain context path
+	CtxRoot string `json:"ctx_root,omitempty"`
 }
 
+// client returns THE client of the world for a configuration: like an application, the harness keeps one client (and one
+// resolver with its one base URL object) per configuration and sends every call through it, so whatever a call leaves
+// behind in the client, the resolver or the base URL is seen by the calls after it.
 func (w *world) client(cfg clientConfig, sl *slot) *restli.Client {
+	key := fmt.Sprintf("%+v", cfg)
+	if c, ok := w.clients.Load(key); ok {
+		return c.(*restli.Client)
+	}
 	c := &restli.Client{StrictResponseDeserialization: cfg.Strict, QueryTunnellingThreshold: cfg.Threshold}
 	if cfg.Transport == "http" {
 		w.tsOnce.Do(func() { w.ts = httptest.NewServer(w.handler) })
 		u, _ := url.Parse(w.ts.URL)
 		c.Client = w.ts.Client()
-		c.HostnameResolver = &restli.SimpleHostnameResolver{Hostname: w.baseURL(u.Host)}
+		c.HostnameResolver = &restli.SimpleHostnameResolver{Hostname: w.baseURLFor(u.Host, cfg)}
 	} else {
-		c.Client = &http.Client{Transport: inProcess{w, func(cp *capture) {
-			if sl != nil {
-				sl.mu.Lock()
-				sl.wire = append(sl.wire, cp)
-				sl.mu.Unlock()
-			}
-		}}}
-		c.HostnameResolver = &restli.SimpleHostnameResolver{Hostname: w.baseURL("verif.test")}
+		// (the capture is filed under the slot named by the call header)
+		c.Client = &http.Client{Transport: inProcess{w, nil}}
+		c.HostnameResolver = &restli.SimpleHostnameResolver{Hostname: w.baseURLFor("verif.test", cfg)}
 	}
-	return c
+	actual, _ := w.clients.LoadOrStore(key, c)
+	return actual.(*restli.Client)
 }
 
 // do performs one abstract call against the world with a scripted outcome.
